@@ -43,10 +43,10 @@ PartsAt(i) ==
           ELSE {TextPart(NameB, <<"x">>), FilePart(NameA, "F2", "M2", <<"x">>)})
     [] OTHER -> Catalogue(NameA) \cup Catalogue(NameB)
 
-\* shapes: both option mixes in the deep configs, alternating by the number of file parts in the quick one
+\* shapes: the two option mixes alternate with the number of file parts of the form
 NFiles(f) == Len(SelectSeq(f, LAMBDA p : p.kind = "file"))
 OptsFor(f) == CASE FAMILY = "delim" -> PlainOpts [] FAMILY = "headers" -> AllOpts
-                [] OTHER -> IF FULLTARGETS THEN TwoOpts ELSE {o \in TwoOpts : o.fin = (NFiles(f) % 2 = 0)}
+                [] OTHER -> {o \in TwoOpts : o.fin = (NFiles(f) % 2 = 0)}
 
 Natural(f, n) == LET c == ShapeClass(f, n) IN
   CASE c = "missing" -> "none"
